@@ -46,6 +46,17 @@ pub fn decompress_contract(
     if sid >= mzcore::verif::FIRST_FAILURE_STATE {
         return (TINFLStatus::Failed, 0, 0);
     }
+    // Window integrity (precondition of the real core, module docs of inflate::core): the caller
+    // passes the buffer that holds the previously produced plaintext right before out_pos.
+    unsafe {
+        if G_N > 0 {
+            let flat = flags & TINFL_FLAG_USING_NON_WRAPPING_OUTPUT_BUF != 0;
+            assert!(!out.is_empty(), "history window lost");
+            let prev = if flat { out_pos.wrapping_sub(1) } else { out_pos.wrapping_sub(1) & mask };
+            assert!(prev < out.len(), "history window lost");
+            assert!(out[prev] == G[G_N - 1], "history window does not hold the last produced byte");
+        }
+    }
     let room = out.len() - out_pos;
     let st: u8 = kani::any();
     let consumed: usize = kani::any();
@@ -211,10 +222,7 @@ fn one_call_with(state: &mut InflateState, t: &mut Track, n_in: usize, n_out: us
     if fl == 2 && !t.data_err && !t.buf_sticky || before.has_flushed {
         t.finished_seen = after.has_flushed;
     }
-    kani::cover!(res.status == Ok(MZStatus::StreamEnd));
-    kani::cover!(res.status == Ok(MZStatus::Ok) && res.bytes_written > 0);
-    kani::cover!(res.status == Err(MZError::Buf));
-    kani::cover!(res.status == Err(MZError::Data));
+    kani::cover!(true, "end of call reached");
 }
 
 fn reset_ghost() {
@@ -248,6 +256,9 @@ fn first_call_concrete(n_in: usize, n_out: usize, fl: u8) {
     let mut state = InflateState::new_boxed(format_from(fmt));
     let mut t = Track { delivered: 0, ended: false, data_err: false, buf_sticky: false, finished_seen: false };
     one_call_with(&mut state, &mut t, n_in, n_out, fl);
+    kani::cover!(t.ended || n_out == 0);
+    kani::cover!(t.data_err);
+    kani::cover!(t.delivered > 0 || n_out == 0);
     // format -> flags (C09)
     if unsafe { CORE_CALLS } > 0 {
         let f = unsafe { LAST_FLAGS };
@@ -278,11 +289,128 @@ fn w_inflate_c_sync_0_2() {
     first_call_concrete(0, 2, 1)
 }
 
+/// C13 inductive step, the branches of inflate() that must NOT reach the core: from an arbitrary
+/// wrapper state (any flags, any last status incl. failures, pending window bytes) one call with any
+/// flush / sizes: Full => stream error; failed stream => sticky Data (or Buf after a truncated Finish);
+/// non-Finish after Finish => stream error; pending window bytes are handed out first, in order,
+/// with the ring offset wrapping at 32 KiB; stream-end exactly when the decoder is done and nothing is pending.
+fn step_early(dict_ofs: usize) {
+    reset_ghost();
+    let mut st = InflateState::new_boxed(format_from(0));
+    let mut p = st.verif_parts();
+    let avail: usize = kani::any();
+    kani::assume(avail <= 2);
+    p.dict_ofs = dict_ofs;
+    p.dict_avail = avail;
+    p.first_call = kani::any();
+    p.has_flushed = kani::any();
+    let f: u8 = kani::any();
+    kani::assume(f < 3);
+    p.data_format = format_from(f);
+    let ls: i8 = kani::any();
+    kani::assume(ls >= -4 && ls <= 2);
+    p.last_status = TINFLStatus::from_i32(ls as i32).unwrap();
+    // wrapper invariants: a fresh/reset state has nothing pending; pending bytes lie inside the ring
+    kani::assume(!p.first_call || (avail == 0 && !p.has_flushed));
+    kani::assume(dict_ofs + avail <= 32768);
+    st.verif_set_parts(&p);
+    let w: [u8; 2] = kani::any();
+    st.verif_set_dict(dict_ofs, w[0]);
+    st.verif_set_dict((dict_ofs + 1) & 32767, w[1]);
+    let input: [u8; 2] = kani::any();
+    let mut output = [0u8; 3];
+    let n_in: usize = kani::any();
+    let n_out: usize = kani::any();
+    kani::assume(n_in <= 2 && n_out <= 3);
+    let fl: u8 = kani::any();
+    kani::assume(fl < 4);
+    // only the branches that return before decoding
+    let failed = ls < 0;
+    let finish_first = fl == 2 && p.first_call;
+    kani::assume(fl == 3 || failed || (p.has_flushed && fl != 2) || (avail != 0 && !finish_first));
+    let res = inflate(&mut st, &input[..n_in], &mut output[..n_out], flush_from(fl));
+    let a = st.verif_parts();
+    assert!(unsafe { CORE_CALLS } == 0);
+    assert!(res.bytes_consumed == 0);
+    if fl == 3 {
+        assert!(res.status == Err(MZError::Stream) && res.bytes_written == 0);
+        assert!(a == p);
+    } else if failed {
+        assert!(res.bytes_written == 0);
+        assert!(res.status == if ls == -4 { Err(MZError::Buf) } else { Err(MZError::Data) });
+        assert!(a.last_status == p.last_status && a.dict_avail == avail && a.dict_ofs == dict_ofs);
+    } else if p.has_flushed && fl != 2 {
+        assert!(res.status == Err(MZError::Stream) && res.bytes_written == 0);
+        assert!(a.dict_avail == avail && a.dict_ofs == dict_ofs);
+    } else {
+        let n = if avail < n_out { avail } else { n_out };
+        assert!(res.bytes_written == n);
+        if n >= 1 {
+            assert!(output[0] == w[0]);
+        }
+        if n >= 2 {
+            assert!(output[1] == w[1]);
+        }
+        assert!(a.dict_avail == avail - n);
+        assert!(a.dict_ofs == (dict_ofs + n) & 32767);
+        let end = ls == 0 && avail == n;
+        assert!(res.status == Ok(if end { MZStatus::StreamEnd } else { MZStatus::Ok }));
+        assert!(a.has_flushed == (p.has_flushed || fl == 2));
+    }
+    assert!(!a.first_call || fl == 3);
+    kani::cover!(res.status == Ok(MZStatus::StreamEnd));
+    kani::cover!(res.status == Ok(MZStatus::Ok) && res.bytes_written == 2);
+    kani::cover!(res.status == Err(MZError::Buf));
+    kani::cover!(res.status == Err(MZError::Data));
+    kani::cover!(res.status == Err(MZError::Stream) && fl != 3);
+}
+
 #[kani::proof]
 #[kani::unwind(4)]
 #[kani::stub(mzcore::decompress, decompress_contract)]
-fn w_inflate_c_full_1_1() {
-    first_call_concrete(1, 1, 3)
+fn w_inflate_step_early_ofs0() {
+    step_early(0)
+}
+
+#[kani::proof]
+#[kani::unwind(4)]
+#[kani::stub(mzcore::decompress, decompress_contract)]
+fn w_inflate_step_early_wrap() {
+    step_early(32766)
+}
+
+/// C13: two calls with concrete sizes/flushes (history-dependent clauses: sticky errors, Finish stickiness,
+/// pending-window hand-off, window integrity for the core).
+fn two_calls_concrete(a: (usize, usize, u8), b: (usize, usize, u8)) {
+    reset_ghost();
+    unsafe { MAX_WRITE = 2 };
+    let fmt: u8 = kani::any();
+    kani::assume(fmt < 3);
+    let mut state = InflateState::new_boxed(format_from(fmt));
+    let mut t = Track { delivered: 0, ended: false, data_err: false, buf_sticky: false, finished_seen: false };
+    one_call_with(&mut state, &mut t, a.0, a.1, a.2);
+    one_call_with(&mut state, &mut t, b.0, b.1, b.2);
+}
+
+#[kani::proof]
+#[kani::unwind(4)]
+#[kani::stub(mzcore::decompress, decompress_contract)]
+fn w_inflate_c2_finish_finish() {
+    two_calls_concrete((2, 1, 2), (1, 2, 2))
+}
+
+#[kani::proof]
+#[kani::unwind(4)]
+#[kani::stub(mzcore::decompress, decompress_contract)]
+fn w_inflate_c2_none_none() {
+    two_calls_concrete((1, 1, 0), (1, 2, 0))
+}
+
+#[kani::proof]
+#[kani::unwind(4)]
+#[kani::stub(mzcore::decompress, decompress_contract)]
+fn w_inflate_c2_none_finish() {
+    two_calls_concrete((2, 1, 0), (0, 2, 2))
 }
 
 /// C13 (a'): every sequence of two inflate() calls from a fresh state.
